@@ -350,14 +350,15 @@ Fixpoint run (root : path) (s : st) (ops : list op) : st * option N :=
   end.
 
 (* revert_paths: reverse order, every io error ignored.  `fixed = true` is the code after
-   "fix: remove the directories a reverted add left in place of a deleted file". *)
+   "fix: apply_patch rollback lost a deleted file when a later operation of the same patch had
+   created directories at its path" (remove_empty_dirs before the restore). *)
 Definition ign (f : fs) (r : res fs) : fs := match r with Ok f' => f' | Err _ => f end.
 
 Definition revert_one (fixed : bool) (root : path) (f : fs) (e : list N * option bytes) : fs :=
   let t := tg root (fst e) in
   match snd e with
   | Some b =>
-    let f0 := if fixed then os_rm_empty_tree f t else f in
+    let f0 := if fixed then os_prune_dirs f t else f in
     let f1 := fst (mk_parent_dirs f0 t) in
     ign f1 (os_write f1 t b)
   | None => ign f (os_remove_file f t)
